@@ -45,7 +45,7 @@ package mautil
 // IP-family addresses are kept iff public and not unspecified, DNS-family iff
 // the name is not localhost.
 //@ func FilterPublic$1
-//@   property C20
+//@   property C20 C09
 //@   ghost pub := false
 //@   ghost unspec := false
 //@   ghost comp := zero("*multiaddr.Component")
@@ -67,7 +67,7 @@ package mautil
 //@   ensures-local comp != nil && !(code == multiaddr.P_IP4 || code == multiaddr.P_IP6 || code == multiaddr.P_IP6ZONE || code == multiaddr.P_IPCIDR || code == multiaddr.P_DNS || code == multiaddr.P_DNS4 || code == multiaddr.P_DNS6 || code == multiaddr.P_DNSADDR) ==> result
 
 //@ func FilterPublic
-//@   property C20
+//@   property C20 C09
 //@   ensures len(result) == 0 ==> result == nil
 
 // Lists are compared as multisets: both are sorted by their bytes (in place) and then compared position by
